@@ -68,7 +68,7 @@ Definition rerr_eqb (a b : rerr) : bool :=
   end.
 
 (* ---------------------------------------------------------------- byte strings *)
-Definition bstr := list N.
+Notation bstr := (list N) (only parsing).
 Definition blen {A} (bs : list A) : N := N.of_nat (length bs).
 (* bs[start : start+len] — callers have checked start+len <= len(bs) *)
 Definition sub (bs : list N) (start len : N) : list N :=
@@ -102,7 +102,7 @@ Definition uvarint5 (bs : list N) (off : N) : option (N * N) :=
   end.
 
 (* ---------------------------------------------------------------- data *)
-Definition lbl := (bstr * bstr)%type.
+Notation lbl := (list N * list N)%type (only parsing).
 Record cmeta := mkCM { cm_ref : N; cm_min : Z; cm_max : Z }.   (* chunks.Meta without the chunk *)
 Record toc := mkTOC { t_symbols : N; t_series : N; t_lidx : N; t_lidxtab : N; t_postings : N; t_potab : N }.
 
